@@ -11,7 +11,7 @@ LEVEL = "model_checking"
 ANCHOR_PREFIXES = ["context::", "transform::", "reuse::", "expression::eval_vars", "expression::eval_attr", "loop_el::"]
 BOUNDS = ("programs of <= 7 nodes, nesting depth <= 3, over {<var k>, <var j>, chained <var k j=$k>, swap <var k=$j j=$k>, <g k=..>, <g>, <reuse k=..> of a probing template in <specs>, "
           "<reuse> of a template whose evaluation needs a forward reference, <loop count=2>, <if test=1>, probe, probe carrying a forward reference}; plus <var> elements that themselves need a forward reference (plain, swap, chained, accumulating); three variable names (one hyphenated, read through ${...}); every definition a distinct symbolic integer in [-1000,1000]; "
-          "probes read $k and $j through pass-through attributes; generated from a seeded grammar (thorough: 20000 programs, quick: 2500); further grammar items: bindings to the empty string, empty <g .../> elements, templates written after their use, reuse x / y as locals, loop / for variables (also zero-pass loops), <symbol> scope, a non-ASCII variable name read un-braced, variables read in geometry and text")
+          "probes read $k and $j through pass-through attributes; generated from a seeded grammar (thorough: 20000 programs, quick: 2500); further grammar items: bindings to the empty string, empty <g .../> elements, templates written after their use, reuse x / y as locals, loop / for variables (also zero-pass loops), <symbol> scope, a non-ASCII variable name read un-braced, variables read in geometry and text; expression-valued attribute locals read directly, copied through <var>, bound by <reuse>, used as a loop count and read by a deferred element")
 ASSUMPTIONS = ["scopes are opened by <g>/<symbol> and <reuse> (docs expressions.md 'attribute locals'); <loop>/<if> do not open a scope; <var> assigns into the innermost open scope",
                "all attributes of one <var> read the bindings in force before it; an undefined $name is left verbatim"]
 
